@@ -31,7 +31,7 @@ ANCHORS = [
     "stereomolgraph.graphs.mg:MolGraph.from_atom_types_and_bond_order_matrix",
 ]
 REQUIRED_ANCHORS = ANCHORS
-REQUIRED = ["roundtrips", "single_atom", "connectivity_matrices", "contract_evaluations", "rigid_motions", "permutations", "threshold_pairs", "comment:fourcol", "comment:nonascii", "comment:none"]
+REQUIRED = ["roundtrips", "single_atom", "connectivity_matrices", "contract_evaluations", "rigid_motions", "permutations", "threshold_pairs", "translation_magnitude:1e+06", "comment:fourcol", "comment:nonascii", "comment:none"]
 _contract = {"n": 0}
 
 
@@ -61,7 +61,14 @@ def setup(ctx):
         return bool(np.all(r >= 0)) and bool(np.allclose(r, np.swapaxes(r, -1, -2), rtol=0, atol=0)) and bool(np.all(np.diagonal(r, axis1=-2, axis2=-1) == 0))
 
     C.BondsFromDistance.array = icontract.ensure(well_formed, error=lambda result: ContractBroken("BondsFromDistance.array result is not a symmetric 0/1 integer matrix with zero diagonal"))(C.BondsFromDistance.array)
-    C.pairwise_distances = icontract.ensure(dist_ok, error=lambda result: ContractBroken("pairwise_distances result is not symmetric / non-negative / zero on the diagonal"))(C.pairwise_distances)
+    # the distance matrix itself is not part of the statement (only the connectivity is): its exact symmetry /
+    # zero diagonal is recorded as a diagnostic and never decides a verdict
+    def dist_diag(result):
+        if not dist_ok(result):
+            _contract["dist_inexact"] = _contract.get("dist_inexact", 0) + 1
+        return True
+
+    C.pairwise_distances = icontract.ensure(dist_diag, error=lambda result: ContractBroken("unreachable"))(C.pairwise_distances)
 
 
 COMMENTS = {
@@ -243,7 +250,9 @@ def _conn(ctx, case):
     q /= np.linalg.norm(q)
     w, x, y, z = q
     R = np.array([[1 - 2 * (y * y + z * z), 2 * (x * y - z * w), 2 * (x * z + y * w)], [2 * (x * y + z * w), 1 - 2 * (x * x + z * z), 2 * (y * z - x * w)], [2 * (x * z - y * w), 2 * (y * z + x * w), 1 - 2 * (x * x + y * y)]])
-    t = np.array([rng.uniform(-50, 50) for _ in range(3)])
+    tmag = rng.choice([50.0, 50.0, 1e3, 1e5, 1e6])  # the statement covers coordinates up to 1e6
+    t = np.array([rng.uniform(-1, 1) * tmag for _ in range(3)])
+    ctx.count(f"translation_magnitude:{tmag:g}")
     perm = list(range(n))
     rng.shuffle(perm)
     c2 = (c @ R.T + t)[perm]
@@ -255,6 +264,8 @@ def _conn(ctx, case):
         return
     ctx.count("rigid_motions")
     ctx.count("permutations")
+    if _contract.get("dist_inexact"):
+        ctx.count("diag:pairwise_distances_not_exactly_symmetric_or_zero_diagonal", _contract.pop("dist_inexact"))
     _, loose = _expected(els, c, 1e-6)
     back = np.zeros_like(m2)
     for i2, i in enumerate(perm):
@@ -263,5 +274,5 @@ def _conn(ctx, case):
     bad = (back != m) & ~loose
     if bad.any():
         i, j = map(int, np.argwhere(bad)[0])
-        ctx.violate("C20/connectivity-not-invariant/rigid-motion+permutation", f"pair ({i},{j}) bonded={m[i, j]} before and {back[i, j]} after rotation/translation/permutation (d={math.dist(c[i], c[j])!r})", case)
+        ctx.violate(f"C20/connectivity-not-invariant/rigid-motion+permutation/translation~{tmag:g}", f"pair ({i},{j}) bonded={m[i, j]} before and {back[i, j]} after rotation/translation/permutation (d={math.dist(c[i], c[j])!r})", case)
     ctx.sample({"kind": "conn", "shape": case["shape"], "elements": els, "bonds": int(m.sum()) // 2})
